@@ -166,6 +166,7 @@ impl Report {
 
     pub fn violation(&mut self, class: &str, message: impl Into<String>, case: Value) {
         self.violation_count += 1;
+        *self.counters.entry(format!("violation_class_{class}")).or_insert(0) += 1;
         if self.violations.len() < MAX_VIOLATIONS_KEPT {
             self.violations.push(Violation {
                 class: class.to_string(),
